@@ -17,6 +17,7 @@ Trees (python side): ("s", text) ("c", col, text) ("ls"|"tp", [items]) ("mk", [a
 """
 import ast
 import os
+import re
 import sys
 
 from harness.core import enc_str, dec_str
@@ -220,10 +221,33 @@ def _cells_of_str(s):
     return out
 
 
+def _rle(toks):
+    """reply tokens, run-length encoded (`tok*count` for runs of 4 or more) exactly as lean/Drv/C08.lean does"""
+    out, i, n = [], 0, len(toks)
+    while i < n:
+        j = i
+        while j < n and toks[j] == toks[i]:
+            j += 1
+        if j - i >= 4:
+            out.append("%s*%d" % (toks[i], j - i))
+        else:
+            out.extend(toks[i:j])
+        i = j
+    return ",".join(out) if out else "-"
+
+
+def _enc_r(s):
+    return _rle([str(ord(c)) for c in s])
+
+
 def _enc_cells(cells):
     if cells is None:
         return "?"
-    return ",".join("%d.%s" % (ord(c), k) for c, k in cells) if cells else "-"
+    return _rle(["%d.%s" % (ord(c), k) for c, k in cells])
+
+
+# sizes around the places where a pre-built buffer, a small-int cache or a 16-bit counter would end
+SIZES = [255, 256, 1023, 1024, 1025, 1100, 5000, 70000]
 
 
 # ------------------------------------------------------------------ trees <-> postfix
@@ -403,13 +427,13 @@ def ev_real(t):
 def show_real(obj):
     col = _color()
     if isinstance(obj, col.CHText):
-        chunks = "/".join("%s:%s" % (_col_id(c.c_prefix, c.c_suffix), enc_str(c.text)) for c in obj.chunks) or "-"
-        return "T %d %s P %s X %s" % (len(obj), chunks, enc_str(obj.plain_text()), _enc_cells(_cells_of_str(str(obj))))
+        chunks = "/".join("%s:%s" % (_col_id(c.c_prefix, c.c_suffix), _enc_r(c.text)) for c in obj.chunks) or "-"
+        return "T %d %s P %s X %s" % (len(obj), chunks, _enc_r(obj.plain_text()), _enc_cells(_cells_of_str(str(obj))))
     if isinstance(obj, col.CHText.Chunk):
-        return "C %s:%s L %d P %s X %s" % (_col_id(obj.c_prefix, obj.c_suffix), enc_str(obj.text), len(obj),
-                                          enc_str(obj.plain_text()), _enc_cells(_cells_of_str(str(obj))))
+        return "C %s:%s L %d P %s X %s" % (_col_id(obj.c_prefix, obj.c_suffix), _enc_r(obj.text), len(obj),
+                                          _enc_r(obj.plain_text()), _enc_cells(_cells_of_str(str(obj))))
     if isinstance(obj, str):
-        return "S " + enc_str(obj)
+        return "S " + _enc_r(obj)
     if isinstance(obj, (list, tuple)):
         return ("TP(" if isinstance(obj, tuple) else "LS(") + "".join(show_real(x) + ";" for x in obj) + ")"
     return "?? " + type(obj).__name__
@@ -448,10 +472,10 @@ def impl(case):
             elif kind == "resize":
                 CH = _color().CHText
                 r = CH.resize_chunks_list([_make_chunk(c, t) for _, c, t in trees], spec)
-                chunks = "/".join("%s:%s" % (_col_id(c.c_prefix, c.c_suffix), enc_str(c.text)) for c in r) or "-"
+                chunks = "/".join("%s:%s" % (_col_id(c.c_prefix, c.c_suffix), _enc_r(c.text)) for c in r) or "-"
                 out.append("ok CS %s L %d" % (chunks, CH.calc_chunks_len(r)))
             elif kind == "pyslice":
-                out.append("S " + enc_str(dec_str(trees[0])[_pi(trees[1]):_pi(trees[2])]))
+                out.append("S " + _enc_r(dec_str(trees[0])[_pi(trees[1]):_pi(trees[2])]))
             elif kind == "pyidx":
                 out.append("ok " + enc_str(dec_str(trees[0])[int(trees[1])]))
             else:
@@ -859,6 +883,12 @@ def _charwise_text(ref):
     return x
 
 
+def _r(x):
+    """repr for messages: long values are cut, their length is kept"""
+    t = repr(x)
+    return t if len(t) <= 90 else "%s... (%d items)" % (t[:80], len(x))
+
+
 def _check_value(obj, ref, where, eq=True):
     """the observable claims of the statement for one resulting object"""
     col = _color()
@@ -876,18 +906,21 @@ def _check_value(obj, ref, where, eq=True):
     else:
         raise Violation("type: %s gives %s" % (where, type(obj).__name__))
     if obj.plain_text() != ref.plain:
-        raise Violation("text: %s shows %r, the same operations on str give %r" % (where, obj.plain_text(), ref.plain))
+        raise Violation("text: %s shows %s, the same operations on str give %s" % (where, _r(obj.plain_text()), _r(ref.plain)))
     if bool(obj) != bool(ref.plain):
         raise Violation("bool: %s is %s, the str is %s" % (where, bool(obj), bool(ref.plain)))
     if len(obj) != len(ref.plain):
         raise Violation("len: %s has len %d but shows %d characters" % (where, len(obj), len(ref.plain)))
     if got != want:
-        raise Violation("color: %s: chunks carry %r, the characters were created as %r" % (where, got, want))
+        raise Violation("color: %s: chunks carry %s, the characters were created as %s" % (where, _r(got), _r(want)))
     shown = _cells_of_str(str(obj))
     if shown != want:
-        raise Violation("str: %s: str() shows %r, expected %r" % (where, shown, want))
+        raise Violation("str: %s: str() shows %s, expected %s" % (where, _r(shown), _r(want)))
     if isinstance(obj, col.CHText) and eq:
-        for name, other in (("chunk by chunk", _canon_text(ref)), ("character by character", _charwise_text(ref))):
+        others = [("chunk by chunk", _canon_text(ref))]
+        if len(ref.plain) <= 300:                      # one += per character is quadratic
+            others.append(("character by character", _charwise_text(ref)))
+        for name, other in others:
             if not (obj == other) or not (other == obj) or (obj != other):
                 raise Violation("equal: %s is not equal to the same characters and colors assembled %s" % (where, name))
         if all(c == 0 for c in ref.cols):
@@ -1009,7 +1042,7 @@ def oracle(case, replies):
                     got = [(ch, _col_id(c.c_prefix, c.c_suffix)) for c in r for ch in c.text]
                     want = list(zip(plain[:spec].ljust(spec), [str(c) for c in cols[:spec] + [0] * (spec - len(cols))]))
                     if got != want:
-                        return "resize: resize_chunks_list(%r, %d) shows %r, expected %r" % (plain, spec, got, want)
+                        return "resize: resize_chunks_list(%s, %d) shows %s, expected %s" % (_r(plain), spec, _r(got), _r(want))
                     if col.CHText.calc_chunks_len(r) != spec:
                         return "resize-len: calc_chunks_len of the result is not %d" % spec
             except Violation as v:
@@ -1193,6 +1226,8 @@ class _Gen:
                 t = ("sl", a, self.bound(n), self.bound(n))
             else:
                 t = ("fl", a, rng.choice([0, n, n + 1, max(0, n - 1), rng.randint(0, n + 3)]))
+                if rng.random() < 0.01 and n < 50:
+                    t = ("fl", a, n + rng.choice(SIZES[:6]))
         return t, ev_ref_shallow(t)
 
 
@@ -1301,6 +1336,27 @@ def gen_cases(rng, tier):
                 yield _case(line_of("val", [("idx", ct, i)]), "chunk-index")
             for m in range(0, n + 4):
                 yield _case(line_of("val", [("fl", ct, m)]), "chunk-fixedlen")
+    # 1b. sizes: paddings, widths and truncations around 255/256, 1023..1025, 5000, 70000 (numbers travel, not blanks)
+    for n in (SIZES if not quick else SIZES[:-1] + [70000]):
+        for base in (BASES[0], BASES[3], BASES[5]):
+            bt = _base_tree(base)
+            m = sum(len(t) for t, _ in base)
+            yield _case(line_of("val", [("fl", bt, n)]), "size-fixedlen")
+            yield _case(line_of("val", [("fl", ("fl", bt, n + m), n)]), "size-fixedlen")       # pad then truncate
+            yield _case(line_of("val", [("sl", ("fl", bt, n + 7), n - 2, None)]), "size-fixedlen")
+            yield _case(line_of("alias", [("fl", bt, n), ("s", "q")], n), "size-fixedlen")
+            for al in ("", "<", ">", "*^"):
+                yield _case(line_of("fmt", [bt], al + str(n + m)), "size-format")
+            yield _case(line_of("fmt", [("fl", bt, n)], "_>" + str(n + 1025)), "size-format")
+            toks = " ".join("c:%d:%s" % (c, enc_str(t)) for t, c in base)
+            yield _case(("resize %d %s" % (n + m, toks)).strip(), "size-resize")
+            yield _case(("resize %d %s" % (n, toks)).strip(), "size-resize")
+            yield _case(hist_line([("new", [("c", c, t) for t, c in base]), ("fl", 0, n + m), ("iadd", 1, ("o", 0)),
+                                   ("fl", 1, n), ("join", 0, [("o", 1), ("o", 2)])]), "size-history")
+        ct = ("c", 1, "ab")
+        yield _case(line_of("val", [("fl", ct, n)]), "size-fixedlen")
+        yield _case(line_of("val", [("fl", ct, n + 2)]), "size-fixedlen")
+        yield _case(line_of("fmt", [ct], "^" + str(n + 2)), "size-format")
     # 2. random operation trees
     n_trees = 16000 if quick else 400000
     for k in range(n_trees):
@@ -1517,6 +1573,18 @@ def corpus():
 def search_cases(rng, tier):
     """directed search: all slices / indexes / widths over every split of a short text into colored chunks,
     after every way of assembling it"""
+    # large sizes first: a changed pad / fill constant or a pre-built buffer shows only beyond its size
+    for n in SIZES + [n + d for n in SIZES for d in (-1, 1, 2)]:
+        for base in BASES:
+            bt = _base_tree(base)
+            m = sum(len(t) for t, _ in base)
+            yield _case(line_of("val", [("fl", bt, n + m)]), "search-size")
+            yield _case(line_of("fmt", [bt], "*^" + str(n + m)), "search-size")
+            yield _case(line_of("fmt", [bt], str(n + m)), "search-size")
+            toks = " ".join("c:%d:%s" % (c, enc_str(t)) for t, c in base)
+            yield _case(("resize %d %s" % (n + m, toks)).strip(), "search-size")
+            if len(base) == 1:
+                yield _case(line_of("val", [("fl", ("c", base[0][1], base[0][0]), n + m)]), "search-size")
     text = "abcde"
     for n in range(0, 6):
         for mask in range(1 << max(0, n - 1)):
@@ -1643,7 +1711,9 @@ def shrink(case):
 
 # ------------------------------------------------------------------ evidence
 RULE = ("one case = one protocol line. Streams: (1) exhaustive slices/indexes/fixed_len/format widths on 7 base texts of 0-4 "
-        "chunks and on single chunks; (2) random operation trees of depth <= 4 (thorough 6) over 2-6 colours and texts of 0-4 "
+        "chunks and on single chunks; (1b) sizes: fixed_len / format width / resize_chunks_list / a history with paddings and "
+        "truncations of 255, 256, 1023, 1024, 1025, 1100, 5000, 70000 characters (1% of the random fixed_len too; numbers travel, "
+        "replies are run-length encoded on both sides); (2) random operation trees of depth <= 4 (thorough 6) over 2-6 colours and texts of 0-4 "
         "(10%: 0-9) characters from 'abc xyz s05<é中' (constructor, +, +=, reflected + with str/list/tuple, join, [i], [i:j], "
         "fixed_len, list(x), x += x, x += [x], nested lists/tuples, empty operands), observed as value / format(spec) / == "
         "against a re-assembly of the same cells, a near miss, a str, a chunk; IndexError trees; (3) `u = x.fixed_len(n); "
@@ -1697,6 +1767,9 @@ def nontrivial(case, replies):
 
 def tags(case, replies):
     yield case.get("meta", {}).get("kind", "?")
+    if "*" in replies[0]:
+        m = max(int(x) for x in re.findall(r"\*(\d+)", replies[0]))
+        yield "run>=%d" % next(b for b in (70000, 5000, 1025, 1024, 256, 4) if m >= b)
     r = replies[0].split()
     yield "reply:" + (" ".join(r[:2]) if r[0] == "err" else r[0])
     line = case["lines"][0]
